@@ -30,9 +30,11 @@ func runC03(c *Ctx, r *Report) {
 	c01R3(c, r, "C03.R7")
 	c03Wrappers(c, r, "C03.R10")
 	c03Write(c, r, "C03.R11")
-	c05R23(c, r, "C03.R12") // the relay runs without the matching deadline: a deadline left armed on the client socket cuts the client->upstream direction when it passes
-	c09R7(c, r, "C03.R9")   // UDP downstream: a datagram that exactly fills the read buffer must not produce a spurious end of stream
-	c01R4(c, r, "C03.R8")   // what was prefetched for matching is what the relay later replays: prefetch appends exactly what it read
+	c03HalfCloser(c, r, "C03.R14")
+	c11PeerKey(c, r, "C03.R13") // each upstream of the group is its own backend: two dial addresses never collapse into one peer
+	c05R23(c, r, "C03.R12")     // the relay runs without the matching deadline: a deadline left armed on the client socket cuts the client->upstream direction when it passes
+	c09R7(c, r, "C03.R9")       // UDP downstream: a datagram that exactly fills the read buffer must not produce a spurious end of stream
+	c01R4(c, r, "C03.R8")       // what was prefetched for matching is what the relay later replays: prefetch appends exactly what it read
 }
 
 func c03Proxy(c *Ctx, r *Report) {
